@@ -254,6 +254,7 @@ class Verdict:
             ev["verdict"] = "violated"
             status = 1
             rdir = os.path.join(VERIF, "replays", self.prop)
+            shutil.rmtree(rdir, ignore_errors=True)  # only the replays of this run are kept
             for sig, detail, payload, files in self.violations:
                 h = hashlib.sha1((json.dumps(sig, sort_keys=True) + detail).encode("utf-8", "replace")).hexdigest()[:12]
                 d = os.path.join(rdir, h)
